@@ -8,6 +8,8 @@ mod domain;
 mod engine;
 mod fs;
 mod run_script;
+#[cfg(zinoma_verif)]
+mod verif;
 mod work_dir;
 
 use anyhow::{Context, Result};
